@@ -59,6 +59,31 @@ func Load(path string) (*Corpus, error) {
 // uncompressed packages; OC variants are bound to the tree shape only when compressed.
 func (c *Corpus) VariantNames(pkg *reg.Pkg) []string {
 	var out []string
+	for _, n := range c.VariantNamesAll(pkg) {
+		// With wrapper unions a union that has a binary member cannot be unmarshalled at all
+		// (known finding, reported once by the C01 check, which uses VariantNamesAll): the
+		// other checks leave these variants out for wrapper-union packages.
+		if !pkg.SimpleUnion && c.Variants[n].HasType("u-bu") {
+			continue
+		}
+		out = append(out, n)
+	}
+	return out
+}
+
+// HasType reports whether some role of the variant has corpus type t.
+func (v *Variant) HasType(t string) bool {
+	for _, rt := range v.Roles {
+		if rt == t {
+			return true
+		}
+	}
+	return false
+}
+
+// VariantNamesAll is VariantNames without the wrapper-union exclusion.
+func (c *Corpus) VariantNamesAll(pkg *reg.Pkg) []string {
+	var out []string
 	for n, v := range c.Variants {
 		if v.Shape == "T" && !pkg.Compressed {
 			out = append(out, n)
@@ -534,4 +559,14 @@ func JSONIETF(v interface{}) *gpb.TypedValue {
 		panic(err)
 	}
 	return &gpb.TypedValue{Value: &gpb.TypedValue_JsonIetfVal{JsonIetfVal: b}}
+}
+
+// IsOrdered reports whether corpus list l is ordered-by user.
+func (c *Corpus) IsOrdered(l string) bool {
+	for _, o := range c.Ordered {
+		if o == l {
+			return true
+		}
+	}
+	return false
 }
